@@ -227,6 +227,18 @@ def run(ctx, B):
     ctx.add(evaluations=len(EE))
     if np.any(~np.isfinite(mt["v0"])) or np.any(mt["v0"] < 0) or np.any((mt["flags"] & F_ERR) != 0):
         V("MomentTransf|not-finite", "MomentTransf not finite / negative on the grid", [])
+    # ... and its closed form E sin(theta/2) / (hc in keV Angstrom), on the grid, next to the special angles and down to theta = 1e-300 (a form in
+    # 1 - cos(theta) loses every digit below 1e-8; every differential Rayleigh / Compton cross section takes its momentum transfer from here)
+    tiny = np.array([1e-300, 1e-100, 1e-30, 1e-16, 1e-12, 1e-10, 3e-9, 1e-8, 1.05e-8, 3e-8, 1e-7, 1e-6, 1e-5, 1e-4, 1e-3, 1e-2])
+    thm = np.concatenate([th, th2, tiny, 2 * math.pi - tiny[8:], math.pi - tiny[8:]])
+    Em, Tm = domains.product(Es[::4], thm)
+    mq = X.call("MomentTransf", Em, Tm); ctx.add(evaluations=len(Em))
+    ref = Em / mac["KEV2ANGST"] * np.sin(Tm / 2.0)
+    badm = ((mq["flags"] & F_ERR) != 0) | ~np.isfinite(mq["v0"]) | (np.abs(mq["v0"] - ref) > 1e-13 * np.abs(ref) + 1e-300)
+    for j in np.nonzero(badm)[0][:8]:
+        V("MomentTransf|closed-form|%s" % ("theta<1e-3" if abs(Tm[j]) < 1e-3 else "theta>=1e-3"), "MomentTransf(%r, %r) = %r, E sin(theta/2)/KEV2ANGST = %r" % (float(Em[j]), float(Tm[j]), float(mq["v0"][j]), float(ref[j])),
+          [dict(fn="MomentTransf", args=[float(Em[j]), float(Tm[j])], expect=dict(type="value", value=float(ref[j]), rtol=1e-12))])
+    nt += len(Em)
     X.close()
     ctx.add(nontrivial=nt)
     ctx.sample(dict(fn="CS_KN", E=float(Es[0]), value=float(ckn["v0"][0]), thomson=8 * math.pi / 3 * RE2))
